@@ -8,7 +8,7 @@ from vlib import (Inconclusive, Scratch, Verdict, copy_specs, go_build, log, par
 FAMILY = "console"
 VC = {"level": ["lvl-info", "lvl-warn", "lvl-custom", "lvl-num"], "time": ["time-rfc", "time-bad", "time-unix", "time-real", "time-real", "time-real"], "message": ["msg"], "caller": ["caller"]}
 NTSETS = 7     # combinations of TimeFieldFormat x ConsoleWriter.TimeFormat x TimeLocation in the player (tsets)
-GENERIC = ["plain", "quote", "int", "floatexp", "bool", "null", "obj", "arr", "objpct", "arrpct", "pct"]
+GENERIC = ["plain", "quote", "int", "floatexp", "numtok", "numtok", "bool", "null", "obj", "arr", "objpct", "arrpct", "pct"]
 
 
 def cases_of(r, rng, default_parts=("time", "level", "caller", "message")):
